@@ -80,7 +80,7 @@ func cmdCheck(args []string) int {
 		return 2
 	}
 	thorough := *tier == "thorough"
-	timeout := 10 * time.Second
+	timeout := 20 * time.Second
 	if thorough {
 		timeout = 60 * time.Second
 	}
